@@ -26,11 +26,13 @@ ASSUMPTIONS = [
     'cancellation error in a,b; the code must fall inside that interval (+1e-9 rel)',
     "exp-mode form follows the docstring of interp_exp_and_lin_numpy: linear across log10 P "
     "first, then exponential across T",
+    'exp mode: neighbouring nodes differ by at most 1e10 (linear mode: up to 1e40)',
+    'next to (not on) the Pmin edge with T below Tmin either side of the documented zero corner is accepted',
     'opacity objects are in-memory subclasses of InterpolatingOpacity / KTable (the public '
     'extension point); file readers are covered by C14',
 ]
 _REG = ['%s/%s' % (a, b) for a in ('Tbelow', 'Tin', 'Tabove') for b in ('Pbelow', 'Pin', 'Pabove')]
-REQUIRED = {('region:' + r): 0.03 for r in _REG}
+REQUIRED = {('region:' + r): 0.02 for r in _REG}
 
 KINDS = ['below', 'below', 'below', 'above', 'above', 'above', 'inside', 'inside', 'node', 'ulp-', 'ulp+']
 
@@ -59,6 +61,10 @@ def _case(draw):
     else:
         delta = draw(st.lists(st.floats(0.0, span), min_size=nval, max_size=nval))
     mode = draw(st.sampled_from(['linear', 'exp']))
+    if mode == 'exp' and span > 10.0:
+        # neighbouring nodes more than 1e10 apart leave no significant digits in the
+        # pressure-interpolated value a float64 kernel feeds to log(); outside the domain
+        delta = [d / 4.0 for d in delta]
     sub = None
     if nW > 1 and draw(st.booleans()):
         a = draw(st.integers(0, nW - 1))
@@ -100,7 +106,7 @@ def build(case):
     wn = [100.0 + 37.5 * i for i in range(nW)]
     shape = (len(Pg), len(Tg), nW) + ((ng,) if ng else ())
     with np.errstate(all='ignore'):
-        tab = 10.0 ** (case['base'] - np.array(case['delta'], dtype=float).reshape(shape))
+        tab = 10.0 ** np.maximum(case['base'] - np.array(case['delta'], dtype=float).reshape(shape), -40.0)
     return Tg, Pg, wn, tab
 
 
@@ -110,8 +116,13 @@ def check(case):
     mode, ng = case['mode'], case['ng']
     T = _pick(Tg, case['tpt'], lambda e, f: e * (0.02 + 0.97 * f), lambda e, f: e * (1.0 + 3 * f) + 1e-9)
     lp = [math.log10(p) for p in Pg]
-    x = _pick(lp, case['ppt'], lambda e, f: e - 1e-6 - 6 * f, lambda e, f: e + 1e-6 + 6 * f)
-    P = 10.0 ** x
+    pk = case['ppt'][0]
+    if pk in ('node', 'ulp-', 'ulp+') or (pk == 'inside' and len(Pg) == 1):
+        # exact node pressures (and their neighbours) are chosen in linear space
+        P = float(_pick(Pg, [('node' if pk == 'inside' else pk)] + list(case['ppt'][1:]), None, None))
+    else:
+        x = _pick(lp, case['ppt'], lambda e, f: e - 1e-6 - 6 * f, lambda e, f: e + 1e-6 + 6 * f)
+        P = 10.0 ** x
     # class by the actual numbers
     tc = 'Tbelow' if T < Tg[0] else ('Tabove' if T > Tg[-1] else 'Tin')
     lx = math.log10(P)
@@ -160,6 +171,17 @@ def check(case):
     maxnode = flat[max(p0_ - 1, 0):p1_ + 2, max(t0_ - 1, 0):t1_ + 2].max(axis=(0, 1)) / 1e4
     r = ref.interp_xsec_ref(flat, Tg, Pg, T, P, mode)
     both_below = (T < Tg[0] and lx < lp[0])
+    # log10 of two adjacent doubles may coincide or differ by an ulp depending on the
+    # log10 implementation: next to the Pmin edge (but not exactly on it) with T below
+    # Tmin the documented zero corner makes the function discontinuous, so either side
+    # is accepted there
+    ulp = 4 * np.spacing(abs(lp[0])) + 1e-300
+    if T < Tg[0] and P != Pg[0] and abs(lx - lp[0]) <= ulp:
+        out.cls('ambiguous-zero-corner')
+        if np.all(g == 0.0) or np.all(np.abs(g - flat[0, 0] / 1e4) <= 1e-13 * maxnode + 1e-12 * flat[0, 0] / 1e4):
+            return out
+        out.fail('ambiguous-corner@' + reg, 'neither zero nor the corner node: %s' % g[:3])
+        return out
     atol = 1e-13 * maxnode
     tag = '%s,%s' % (reg, mode)
 
